@@ -953,8 +953,12 @@ func (hm *HandshakeManager) continueHandshake(via ViaSender, hh *HandshakeHostIn
 			newHH.packetStore = hh.packetStore
 			hh.packetStore = []*cachedPacket{}
 			hostinfo.vpnAddrs = vpnAddrs
-			f.sendCloseTunnel(hostinfo)
 		})
+
+		// Tell the host that did respond to close the tunnel. This must happen after StartHandshake has released the
+		// HandshakeManager lock: sending to a host that is only reachable via a relay takes the main HostMap lock, and
+		// CheckAndComplete, Complete and allocateIndex take the HostMap lock before the HandshakeManager lock.
+		f.sendCloseTunnel(hostinfo)
 		return
 	}
 
